@@ -684,27 +684,34 @@ func runC18(r *Run) {
 		"validateJSONPatches": 1, "Validate": 1,
 	}
 	nLoopFns := 0
-	seenFn := map[string]bool{}
+	wantLoops := 0
+	for _, n := range validatingLoopTable {
+		wantLoops += n
+	}
+	gotLoops := 0
+	var perFn []string
 	for _, f := range r.P.SubjectFuncs(pkgPatchVal) {
 		if f.Parent() != nil || !errResultOnly(f) || len(allLoopHeads(f)) == 0 {
 			continue
 		}
 		nLoopFns++
 		name := f.Name()
-		seenFn[name] = true
 		why := "a validating loop that returns success inside its body, or that no longer rejects, examines only part of the list: later malformed entries (e.g. the second service endpoint) are accepted"
 		r.checkNoEarlySuccess(P+".elem.noearly."+name, f, why)
-		min, known := validatingLoopTable[name]
-		if !known {
-			min = 1 // a new looping validator must validate its elements
+		r.checkEveryElementChecked(P+".elem.every."+name, f, why, 0)
+		k := len(r.validatingLoops(f))
+		gotLoops += k
+		note := ""
+		if ref, known := validatingLoopTable[name]; known && ref != k {
+			note = fmt.Sprintf(" (reference %d)", ref)
 		}
-		r.checkEveryElementChecked(P+".elem.every."+name, f, why, min)
+		perFn = append(perFn, fmt.Sprintf("%s:%d%s", name, k, note))
 	}
-	for name := range validatingLoopTable {
-		if !seenFn[name] {
-			r.R.Unk(P+".elem.every."+name, "anchor resolution", "patchvalidator."+name, "-", "the per-element validation rule is about this function", "function (or its loop) no longer exists: re-anchor the rule")
-		}
-	}
+	sort.Strings(perFn)
+	// the table is the reference confirmed by reading; loops may move between
+	// functions (extract / rename), but a loop that stops rejecting lowers the total
+	r.R.Check(gotLoops >= wantLoops, P+".elem.loops.total", fmt.Sprintf("E6 instance count: the patch validator has at least the %d rejecting per-element loops confirmed by reading (wherever they live)", wantLoops), "patchvalidator", "pkg/versions/1_0/operationparser/patchvalidator",
+		"a per-element check that was removed or no longer rejects lets malformed list entries through", fmt.Sprintf("%d rejecting loops: %s", gotLoops, strings.Join(perFn, " ")), fmt.Sprintf("%d rejecting loops, %d confirmed by reading: %s", gotLoops, wantLoops, strings.Join(perFn, " ")))
 	r.R.Floor(P+".elem.floor", "instance floor", nLoopFns, 10, "error-only functions with loops in the patch validator")
 
 	// --- limits
@@ -842,6 +849,7 @@ func runC18(r *Run) {
 		"recursion on attacker-controlled nesting can overflow the stack", fmt.Sprintf("%d functions, acyclic", len(fns)), "recursive edge "+cycle)
 	if r.Universal {
 		r.universalE6(P)
+		r.universalE11(P, pkgComposer, pkgPatch, pkgDocument, pkgPatchVal)
 	}
 	r.checkNoPanic(P, entries, 40)
 }
